@@ -394,17 +394,20 @@ DIAG_HEAD = re.compile(r"^error\[(P\d{4})\]", re.M)
 DIAG_LOC = re.compile(r"^\s*┌─ (.*):(\d+):(\d+)\s*$", re.M)
 
 
-def parse_cli_diags(stderr):
-    """Returns list of (code, file|None, line|None, col|None) from codespan output (ANSI stripped)."""
+def parse_cli_diags(stderr, all_locations=False):
+    """Returns list of (code, file|None, line|None, col|None) from codespan output (ANSI stripped): the
+    location is that of the primary label (the first one printed).  With all_locations=True a fifth
+    element lists every (file, line, col) shown for the diagnostic (primary and secondary labels)."""
     out = []
     blocks = re.split(r"(?m)^(?=error\[P\d{4}\])", stderr)
     for b in blocks:
         m = DIAG_HEAD.match(b)
         if not m:
             continue
-        loc = DIAG_LOC.search(b)
-        if loc:
-            out.append((m.group(1), loc.group(1), int(loc.group(2)), int(loc.group(3))))
+        locs = [(x.group(1), int(x.group(2)), int(x.group(3))) for x in DIAG_LOC.finditer(b)]
+        first = locs[0] if locs else (None, None, None)
+        if all_locations:
+            out.append((m.group(1), first[0], first[1], first[2], locs))
         else:
-            out.append((m.group(1), None, None, None))
+            out.append((m.group(1), first[0], first[1], first[2]))
     return out
